@@ -212,6 +212,30 @@ fn emit_x(out: &mut Out, text: &str) {
 	}
 }
 
+/// document texts with the number lexeme `n` (verbatim) in each numeric position
+pub fn border_docs(n: &str) -> Vec<String> {
+	vec![
+		format!(r#"{{"minzoom":{n}}}"#),
+		format!(r#"{{"maxzoom":{n},"fillzoom":{n}}}"#),
+		format!(r#"{{"bounds":[{n},-{n},{n},{n}]}}"#),
+		format!(r#"{{"bounds":[-10,-10,10,10],"center":[1.5,{n},{n}]}}"#),
+		format!(r#"{{"center":[0,0,{n}],"minzoom":3}}"#),
+		format!(r#"{{"vector_layers":[{{"id":"l","fields":{{}},"minzoom":{n},"maxzoom":{n}}}]}}"#),
+		format!(r#"{{"count":{n},"list":["{n}"],"text":"{n}"}}"#),
+	]
+}
+
+/// document texts with the string `t` in every textual position
+pub fn trap_docs(t: &str) -> Vec<String> {
+	let q = JsonValue::String(t.to_string()).stringify();
+	let q2 = JsonValue::String(format!("a{t}b")).stringify();
+	vec![
+		format!(r#"{{{q}:{q},{q2}:[{q},{q2}]}}"#),
+		format!(r#"{{"name":{q2},"description":{q},"attribution":{q}}}"#),
+		format!(r#"{{"vector_layers":[{{"id":{q},"description":{q2},"fields":{{{q}:{q2},{q2}:{q}}}}},{{"id":{q2},"fields":{{}}}}]}}"#),
+	]
+}
+
 fn bbox_arg(b: &Option<[f64; 4]>) -> String {
 	match b {
 		None => "-".into(),
@@ -427,6 +451,21 @@ pub fn run(args: &Args, out: &mut Out, rng: &mut Rng) {
 	}
 	for t in ["", "{}", " { } ", "[]", "null", "1", "\"x\"", "{\"a\":1", "{\"bounds\":[1,2,3,4],\"bounds\":[5,6,7,8]}", "{\"a\":\"x\",\"a\":\"y\"}", "\u{feff}{}", "{\"a\":{}}", "{\"a\":null}", "{\"tilejson\":\"2.0.0\"}", "{\"tilejson\":7}", "{}x", "{\"vector_layers\":[{\"id\":\"a\"},{\"id\":\"a\",\"fields\":{\"f\":\"g\"}}]}"] {
 		emit_x(out, t);
+	}
+	// checklist 13: the shared number borders, written as text, in every numeric field of a document
+	for nb in crate::c19_gen::NUM_BORDERS {
+		for doc in border_docs(nb) {
+			emit_x(out, &doc);
+		}
+	}
+	// checklist 12: the shared Unicode traps as keys, values, list items, layer ids, field names, descriptions
+	for t in crate::c19_gen::UNICODE_TRAPS {
+		for doc in trap_docs(t) {
+			emit_x(out, &doc);
+			if let Ok(JsonValue::Object(o)) = JsonValue::parse_str(&doc) {
+				emit_t(out, &o);
+			}
+		}
 	}
 	let n = args.n(1500, 20000);
 	for i in 0..n {
